@@ -62,6 +62,11 @@ func polyClass(name string, j int, p *prg) []fr.Element {
 				f[i] = p.fr()
 			}
 		}
+	case "montsmall": // every entry has SMALL stored (Montgomery) words: entry i is (i + j + 1) * 2^-256 mod r; one entry is a full 64-bit word
+		for i := range f {
+			f[i] = frFromBig(montWords(big.NewInt(int64(i + j + 1))))
+		}
+		f[200] = frFromBig(montWords(new(big.Int).SetUint64(^uint64(0))))
 	case "linear3":
 		for i := range f {
 			f[i] = frFromBig(big.NewInt(int64(3*i + 1)))
@@ -98,6 +103,9 @@ func pointValue(name string, p *prg) *big.Int {
 	case "h":
 		return new(big.Int).Rsh(modR, 1)
 	default:
+		if v := montClass(name); v != nil {
+			return v
+		}
 		if n, ok := new(big.Int).SetString(name, 10); ok {
 			return n
 		}
